@@ -397,3 +397,193 @@ def matcher_case(draw, tier="quick", kind="match"):
         tags += tg
     drop = draw(st.sampled_from([False] * 24 + [True]))
     return dict(t=t, n=n, ops=ops, drop=drop, kind=kind, tags=sorted(set(tags)))
+
+
+# ---------------------------------------------------------------- pass level: dart.operation -> dart-scheduler -> dart.schedule
+#
+# recipe: dict(fam, bounds=[iteration bounds], ops=[dict(rows=[[coefficient per iteration dim] per result], ety="i8|i16|i32|i64")],
+#              tags=[how it was built]); the last operand is the output, the others are inputs. All coefficients are >= 0, so the
+#              operand shape of a result is sum(c_i * (B_i - 1)) + 1 and a result that is a plain `d_i` has extent B_i (the pass
+#              reads the iteration bounds back from such results).
+# fam: "alu" (snax_alu, 2 inputs, template (y) -> (y) bound 4), "matmul" / "gemm" (snax_gemmx, (m, n, k) template),
+#      "rescale" (snax_gemmx rescale-only, (m, k) template, 1 input).
+
+ETYS = ("i8", "i16", "i32", "i64")
+ELSIZE = {"i8": 1, "i16": 2, "i32": 4, "i64": 8}
+FAM_ACC = {"alu": "snax_alu", "matmul": "snax_gemmx", "gemm": "snax_gemmx", "rescale": "snax_gemmx"}
+FAM_NOPS = {"alu": 3, "matmul": 3, "gemm": 4, "rescale": 2}
+AUTOFLOW_MAXDIM = 4
+
+
+def _expr(row):
+    terms = [f"d{i}" if c == 1 else f"d{i} * {c}" for i, c in enumerate(row) if c]
+    return " + ".join(terms)
+
+
+def op_shape(rows, bounds):
+    return [sum(c * (b - 1) for c, b in zip(row, bounds)) + 1 for row in rows]
+
+
+def autoflow_text(r):
+    """A module with one dart.operation on memref function arguments, written in generic form."""
+    fam = r["fam"]
+    acc = FAM_ACC[fam]
+    nd = len(r["bounds"])
+    dims = ", ".join(f"d{i}" for i in range(nd))
+    ops = r["ops"]
+    maps = [f"affine_map<({dims}) -> ({', '.join(_expr(row) for row in o['rows'])})>" for o in ops]
+    tys = [f"memref<{'x'.join(str(s) for s in op_shape(o['rows'], r['bounds']))}x{o['ety']}>" for o in ops]
+    e = [o["ety"] for o in ops]
+    n_in = len(ops) - 1
+    L = ["builtin.module {", f"  func.func public @main({', '.join(f'%arg{i} : {t}' for i, t in enumerate(tys))}) {{"]
+    L.append(f'    "dart.operation"({", ".join(f"%arg{i}" for i in range(len(ops)))}) <{{patterns = [{", ".join(maps)}], '
+             f'accelerator = "{acc}", operandSegmentSizes = array<i32: {n_in}, 1>}}> ({{')
+    L.append("    ^bb0(" + ", ".join(f"%s{i} : !dart.stream<{t}>" for i, t in enumerate(e)) + "):")
+
+    def generic(res, ins, in_tys, out_ty, kline, blk):
+        args = ", ".join(f"%{blk}{j} : {t}" for j, t in enumerate(in_tys + [out_ty]))
+        return [f'      {res} = "dart.generic"({", ".join(ins)}) <{{library_call = "{acc}"}}> ({{', f"      ^{blk}({args}):",
+                f"        %k{blk} = {kline}", f"        dart.yield %k{blk} : {out_ty}",
+                f"      }}) : ({', '.join(f'!dart.stream<{t}>' for t in in_tys)}) -> !dart.stream<{out_ty}>"]
+
+    if fam == "rescale":
+        attrs = ("{input_zp = 0 : i32, output_zp = 0 : i32, multiplier = array<i32: 1073741824>, shift = array<i32: 30>, "
+                 "min_int = -128 : i32, max_int = 127 : i32, double_round = false}")
+        L += generic("%g0", ["%s0"], [e[0]], e[1], f"kernel.rescale %x0 {attrs} : ({e[0]}) -> {e[1]}", "x")
+        last = "%g0"
+    elif fam == "gemm":
+        L += generic("%g0", ["%s0", "%s1"], [e[0], e[1]], e[3], f"kernel.mac %x0, %x1 : {e[0]}, {e[1]} -> {e[3]}", "x")
+        L += generic("%g1", ["%g0", "%s2"], [e[3], e[2]], e[3], f"kernel.add %y0, %y1 : {e[3]}, {e[2]} -> {e[3]}", "y")
+        last = "%g1"
+    else:
+        k = "add" if (fam == "alu" and len(set(e)) == 1) else "mac"
+        L += generic("%g0", ["%s0", "%s1"], [e[0], e[1]], e[2], f"kernel.{k} %x0, %x1 : {e[0]}, {e[1]} -> {e[2]}", "x")
+        last = "%g0"
+    L.append(f"      dart.yield {last} : !dart.stream<{e[-1]}>")
+    L.append(f"    }}) : ({', '.join(tys)}) -> ()")
+    L += ["    func.return", "  }", "}"]
+    return "\n".join(L)
+
+
+def _fam_base(fam, nd):
+    """Canonical rows per operand over nd iteration dims (the accelerator's own dims are the LAST ones, extra dims are outer)."""
+    z = nd - {"alu": nd, "matmul": 3, "gemm": 3, "rescale": 2}[fam]
+
+    def unit(i):
+        return [1 if j == i else 0 for j in range(nd)]
+
+    outer = [unit(i) for i in range(z)]
+    if fam == "alu":
+        ident = [unit(i) for i in range(nd)]
+        return [ident, [list(x) for x in ident], [list(x) for x in ident]]
+    if fam == "rescale":
+        mk = [unit(z), unit(z + 1)]
+        return [outer + mk, [list(x) for x in outer + mk]]
+    m, n, k = unit(z), unit(z + 1), unit(z + 2)
+    rows = [outer + [m, k], [list(x) for x in outer] + [list(k), list(n)], [list(x) for x in outer] + [list(m), list(n)]]
+    if fam == "gemm":
+        rows.insert(2, [list(x) for x in outer] + [list(m), list(n)])
+    return rows
+
+
+def _perturb(draw, rows, nd, how):
+    rows = [list(x) for x in rows]
+    if how == "transpose" and len(rows) > 1:
+        i = draw(st.integers(0, len(rows) - 2))
+        rows[i], rows[i + 1] = rows[i + 1], rows[i]
+    elif how == "shear" and nd > 1:
+        i = draw(st.integers(0, len(rows) - 1))
+        j = draw(st.integers(0, nd - 1))
+        rows[i][j] += draw(st.sampled_from([1, 1, 1, 2]))
+    elif how == "collapse" and len(rows) > 1:
+        f = draw(st.sampled_from([1, 1, 2, 4]))
+        i = draw(st.integers(0, len(rows) - 2))
+        merged = [f * a + b for a, b in zip(rows[i], rows[i + 1])]
+        rows[i:i + 2] = [merged]
+    elif how == "stride":
+        i = draw(st.integers(0, len(rows) - 1))
+        f = draw(st.sampled_from([2, 2, 3, 4]))
+        rows[i] = [f * a for a in rows[i]]
+    elif how == "droprow" and len(rows) > 1:
+        rows.pop(draw(st.integers(0, len(rows) - 1)))
+    return rows
+
+
+OUT_PERTURB = ["none", "none", "transpose", "shear", "shear", "shear", "collapse", "collapse", "stride"]
+IN_PERTURB = ["none", "none", "none", "none", "transpose", "shear", "stride", "droprow"]
+
+
+def _plain_dims_ok(ops, nd):
+    """Every iteration dim occurs as a plain `d_i` result somewhere (the pass infers the bounds from those)."""
+    plain = {tuple(row) for o in ops for row in o["rows"]}
+    return all(tuple(1 if j == i else 0 for j in range(nd)) in plain for i in range(nd))
+
+
+@st.composite
+def autoflow_case(draw, tier="quick"):
+    fam = draw(st.sampled_from(["alu"] * 6 + ["matmul", "matmul", "gemm", "rescale", "rescale"]))
+    nops = FAM_NOPS[fam]
+    base_nd = {"alu": draw(st.sampled_from([1, 2, 2, 2, 3])), "matmul": 3, "gemm": 3, "rescale": 2}[fam]
+    nd = base_nd + (1 if fam != "alu" and draw(st.integers(0, 4)) == 0 else 0)
+    tb = 4 if fam == "alu" else 8
+    bst = st.sampled_from([tb, tb, 2 * tb, 2 * tb, 3 * tb, 4 * tb, tb // 2, 3, 1])
+    bounds = [draw(bst) for _ in range(nd)]
+    rows = _fam_base(fam, nd)
+    tags = []
+    if draw(st.integers(0, 4)) == 0:
+        # free coefficients for the output (and sometimes one input); the first input keeps the plain dims
+        lim = st.sampled_from([0, 0, 1, 1, 1, 2, 3, 4])
+        for oi in ([nops - 1] + ([nops - 2] if nops > 2 and draw(st.booleans()) else [])):
+            nr = draw(st.integers(1, len(rows[oi])))
+            rows[oi] = [[draw(lim) for _ in range(nd)] for _ in range(nr)]
+            rows[oi] = [row if any(row) else [1 if j == nd - 1 else 0 for j in range(nd)] for row in rows[oi]]
+        tags.append("free")
+    else:
+        how = draw(st.sampled_from(OUT_PERTURB))
+        rows[-1] = _perturb(draw, rows[-1], nd, how)
+        tags.append("out:" + how)
+        if draw(st.integers(0, 2)) == 0:
+            how = draw(st.sampled_from(OUT_PERTURB))
+            rows[-1] = _perturb(draw, rows[-1], nd, how)
+            tags.append("out:" + how)
+        if nops > 2:
+            how = draw(st.sampled_from(IN_PERTURB))
+            rows[1] = _perturb(draw, rows[1], nd, how)
+            tags.append("in:" + how)
+    # loop order of the operation as written
+    order = draw(st.permutations(list(range(nd))))
+    rows = [_perm_rows(r_, order) for r_ in rows]
+    bounds = [bounds[d] for d in order]
+    # element types
+    c = draw(st.integers(0, 9))
+    if c < 4:
+        t = draw(st.sampled_from(["i32", "i32", "i16", "i8", "i64"]))
+        etys = [t] * nops
+    elif c < 7 and fam != "alu":
+        etys = {"matmul": ["i8", "i8", "i32"], "gemm": ["i8", "i8", "i32", "i32"], "rescale": ["i32", "i8"]}[fam]
+    elif c < 9:
+        # wide inputs, narrower output: only the output is short of the bank width
+        etys = ["i64"] * (nops - 1) + [draw(st.sampled_from(["i32", "i16", "i8"]))]
+    else:
+        etys = [draw(st.sampled_from(ETYS)) for _ in range(nops)]
+    return dict(fam=fam, bounds=bounds, ops=[dict(rows=r_, ety=t) for r_, t in zip(rows, etys)], tags=tags)
+
+
+ALU_OUTS_2D = [[[1, 0], [0, 1]], [[0, 1], [1, 0]], [[1, 1], [0, 1]], [[1, 1], [1, 0]], [[1, 1]], [[2, 1]], [[1, 2]], [[4, 1]], [[1, 4]],
+               [[2, 0], [0, 1]], [[1, 0], [0, 2]], [[1, 2], [0, 1]], [[2, 1], [1, 0]]]
+
+
+def autoflow_exhaustive(tier):
+    """snax_alu, two iteration dims (x, y), plain inputs A[x, y] and B[x, y] (or B[y, x]) and every output pattern of ALU_OUTS_2D
+    (plain, transposed, sheared, collapsed, strided), with uniform and mixed element widths, both loop orders."""
+    ident = [[1, 0], [0, 1]]
+    bl = [(8, 8), (4, 8), (8, 4)] if tier != "thorough" else [(8, 8), (4, 8), (8, 4), (16, 8), (8, 12), (3, 8), (8, 2)]
+    el = [["i32"] * 3, ["i64"] * 3, ["i8"] * 3, ["i64", "i64", "i32"], ["i64", "i64", "i8"], ["i32", "i32", "i16"], ["i8", "i8", "i32"]]
+    for bounds in bl:
+        for out in ALU_OUTS_2D:
+            for etys in el:
+                for b_in in (ident, [[0, 1], [1, 0]]):
+                    for order in ([0, 1], [1, 0]):
+                        rows = [_perm_rows(x, order) for x in (ident, b_in, out)]
+                        yield dict(fam="alu", bounds=[bounds[d] for d in order], ops=[dict(rows=r_, ety=t) for r_, t in zip(rows, etys)],
+                                   tags=["enumerated"])
